@@ -133,9 +133,13 @@ func (t *Directive) hasDirLoop(hits map[string]bool) []string {
 			if hits[name] {
 				return []string{t.Name() + "." + a.Name(), name}
 			}
-			hits[name] = true
 			if d2, _ := du.Directive.(*Directive); d2 != nil {
-				if path := d2.hasDirLoop(hits); 0 < len(path) {
+				// Only the directives on the path to this one make a loop, not
+				// a directive that is merely used a second time.
+				hits[name] = true
+				path := d2.hasDirLoop(hits)
+				delete(hits, name)
+				if 0 < len(path) {
 					return append([]string{t.Name() + "." + a.Name()}, path...)
 				}
 			}
